@@ -3,12 +3,11 @@ import subprocess, os, glob
 import common
 
 def main():
-    common.prepare_harness()
     # warm the Go build cache for every harness package that exists
     pk = sorted({os.path.basename(os.path.dirname(p)) for p in glob.glob(os.path.join(common.HARNESS, "*", "*_test.go"))})
     for p in pk:
         try:
-            common.go_build_test(p, p + ".test")
+            common.go_build_test(p)
             print("built", p)
         except common.Infra as e:
             print("WARN: could not build", p, str(e)[:400])
